@@ -106,7 +106,7 @@ class Emit:
             binders = []
             for p in fn["params"]:
                 if p["name"] == "self":
-                    if not p.get("ref") and not p["ty"].replace(" ", "").startswith("Pin<"):
+                    if cfg.get("self_value") or (not p.get("ref") and not p["ty"].replace(" ", "").startswith("Pin<")):
                         f.env["self"] = ("selfval",)
                         binders.append("(self_ : fb)")
                     continue
@@ -317,6 +317,10 @@ def gen_tokio(tr, em):
                            "FixedBuf::empty": ("empty", 1), "FixedBuf::filled": ("(filled SIZE)", 1)}}
     for nm in ("new", "empty", "filled", "into_inner"):
         em.translate_fn(F, nm, "afb_" + nm, ncfg, self_like="AsyncFixedBuf")
+    # Deref / DerefMut: every FixedBuf method called on an AsyncFixedBuf goes through these; they must stay the identity
+    dcfg = dict(ncfg, self_value=True, ret_override=("selfty",))
+    em.translate_fn(F, "deref", "afb_deref", dcfg, trait="std::ops::Deref", self_like="AsyncFixedBuf")
+    em.translate_fn(F, "deref_mut", "afb_deref_mut", dcfg, trait="std::ops::DerefMut", self_like="AsyncFixedBuf")
     o.append("End G.\n")
 
 
